@@ -45,7 +45,7 @@ func init() {
 		},
 	}
 	Props["C02"] = PropDef{
-		Explanation: "R-REFLKIND kind-set refinement; T-KIND / T-NATURAL tables; R-NOMUT; R-MARSHALER; R-NOALIAS (append ownership, fresh element per iteration); T-TAGWIDTH; R-TRUNC copy-into-fixed; R-ORDER exact-before-fold; R-SIBLING list element tag; R-LENPREFIX payload on every path; R-REFLKIND zero Value; R-ESCAPE pass order; R-REFLKIND set-exact-type; R-TRUNC length prefix; T-KIND array containers; R-MARSHALER wrapper and array tag. Decided: Encoding cannot panic in a reflect accessor for any kind the table routes to it (nor in Type() of a nil element), writes nothing through its input, every kind it accepts has an accepting decoder case, custom marshalers keep the stream aligned, decoded map/list elements and cached index paths do not share memory, headers are not cut to a fixed buffer, list elements carry the header's tag, exact field names win over case-insensitive matches. Value equality after the round trip is not decided.",
+		Explanation: "R-REFLKIND kind-set refinement; T-KIND / T-NATURAL tables; R-NOMUT; R-MARSHALER; R-NOALIAS (append ownership, fresh element per iteration); T-TAGWIDTH; R-TRUNC copy-into-fixed; R-ORDER exact-before-fold; R-SIBLING list element tag; R-LENPREFIX payload on every path; R-REFLKIND zero Value; R-ESCAPE pass order; R-REFLKIND set-exact-type; R-TRUNC length prefix; T-KIND array containers; R-MARSHALER wrapper and array tag; R-RESET a carrier's appended-to slices start empty. Decided: Encoding cannot panic in a reflect accessor for any kind the table routes to it (nor in Type() of a nil element), writes nothing through its input, every kind it accepts has an accepting decoder case, custom marshalers keep the stream aligned, decoded map/list elements and cached index paths do not share memory, headers are not cut to a fixed buffer, list elements carry the header's tag, exact field names win over case-insensitive matches. Value equality after the round trip is not decided.",
 		Run: func(c *Ctx) []core.Ob {
 			obs := c.ReflKind()
 			obs = append(obs, c.KindTables()...)
@@ -70,7 +70,7 @@ func init() {
 		},
 	}
 	Props["C04"] = PropDef{
-		Explanation: "T-SNBTSUF writer tables vs parser classifier; T-DISPATCH; T-SCANSTATE detour states; R-TRUNC rune-to-byte; R-GUARD string indexes; R-PANIC; R-TLG loop bounds; T-SNBT float format ('f', -1), print range against the parser's width (R-TLG interval), bare-string decisions, text through the literal parser; T-SCANSTATE delegated skip-space; R-ORDER text entry checks end of input; R-ESCAPE pass order; T-SNBT suffix strip and written tag (R-TLG case splits); T-SCANSTATE literal-after-begin and escape set. Decided: What the text writer emits for each tag is classified back to the same tag: suffix tables, array prefixes, integers inside the signed range their parser accepts, floats in the shortest exact decimal without exponent, strings left bare only where emptiness and number-likeness were decided, escapes written in one pass; escape states of the scanner return to the string state they left and a delegated end-of-value state makes itself current across blanks; input text becomes a string only where the literal parser has classified it; the text entry point reports success only after the end of the input was checked; quoting decisions look at bytes, not truncated runes; no unguarded index into a possibly empty string; no untriaged explicit panic reachable from text input. The scanner's accepted language as a whole is not decided.",
+		Explanation: "T-SNBTSUF writer tables vs parser classifier; T-DISPATCH; T-SCANSTATE detour states; R-TRUNC rune-to-byte; R-GUARD string indexes; R-PANIC; R-TLG loop bounds; T-SNBT float format ('f', -1), print range against the parser's width (R-TLG interval), bare-string decisions, text through the literal parser; T-SCANSTATE delegated skip-space; R-ORDER text entry checks end of input; R-ESCAPE pass order; T-SNBT suffix strip and written tag (R-TLG case splits); T-SCANSTATE literal-after-begin and escape set; T-SCANSTATE a scan error is recorded where it is answered, a delegating state makes the continuing state current. Decided: What the text writer emits for each tag is classified back to the same tag: suffix tables, array prefixes, integers inside the signed range their parser accepts, floats in the shortest exact decimal without exponent, strings left bare only where emptiness and number-likeness were decided, escapes written in one pass; escape states of the scanner return to the string state they left and a delegated end-of-value state makes itself current across blanks; input text becomes a string only where the literal parser has classified it; the text entry point reports success only after the end of the input was checked; quoting decisions look at bytes, not truncated runes; no unguarded index into a possibly empty string; no untriaged explicit panic reachable from text input. The scanner's accepted language as a whole is not decided.",
 		Run: func(c *Ctx) []core.Ob {
 			obs := c.SNBTSuffix()
 			obs = append(obs, c.SNBTLiteralWidths()...)
